@@ -292,9 +292,9 @@ def rand_ref(rng, st):
     if r < 0.55:
         if st.kind == "A":
             return ("i", rng.choice(["k", "0", "zz"]))
-        dense = st.kind == "I" and [i for i, _ in st.val] == list(range(len(st.val)))
+        dense = st.kind == "I" and len(st.val) > 0 and [i for i, _ in st.val] == list(range(len(st.val)))
         if not dense:
-            # bash: negative subscript of a scalar is "bad array subscript"; of a sparse array it counts from the
+            # bash: negative subscript of a scalar or of an empty array is "bad array subscript"; of a sparse array it counts from the
             # highest index, brush from the number of elements (subscripts are not this property's subject)
             return ("i", rng.choice([0, 1, 2, 7]))
         return ("i", rng.choice([0, 1, 2, -1, 7]))
